@@ -63,23 +63,40 @@ def main():
     finally:
         sh(f"git -C /repo worktree remove --force {wt}")
         shutil.rmtree(wt, ignore_errors=True)
-    # our checks against the change, applied to /repo and undone straight afterwards
+    # our checks against the change: in a scratch worktree with its own copy of the Lean project,
+    # so that /repo itself (which other jobs may be reading) is never modified
     results = {}
-    assert sh("git -C /repo status --porcelain").stdout.strip() == "", "/repo is not clean"
+    wt2 = f"/tmp/seedcheck-{pid}-{n}"
+    sh(f"git -C /repo worktree remove --force {wt2}")
+    shutil.rmtree(wt2, ignore_errors=True)
+    assert sh(f"git -C /repo worktree add {wt2} HEAD").returncode == 0
     try:
-        assert sh(f"git -C /repo apply {patch}").returncode == 0
+        assert sh(f"git -C {wt2} apply {patch}").returncode == 0
+        shutil.copytree(f"{VERIF}/lean", f"{wt2}/_lean")
+        env = dict(os.environ, VERIF_REPO=wt2, VERIF_LEAN_DIR=f"{wt2}/_lean", VERIF_WORK=f"{wt2}/_work",
+                   VERIF_EVIDENCE=f"{wt2}/_evidence")
         for chk in [pid] + extra_checks:
             t0 = time.time()
-            r = sh(["./check", chk, "--tier", "quick"], cwd=VERIF)
+            r = sh(["./check", chk, "--tier", "quick"], cwd=VERIF, env=env)
             viol = [ln for ln in r.stdout.splitlines() if ln.startswith("VIOLATION")]
-            results[chk] = {"exit": r.returncode, "violations": viol, "wall_s": round(time.time() - t0, 1)}
+            replay = {}
+            for ln in viol[:3]:
+                path = ln.split("replay=")[1].split(" ")[0]
+                try:
+                    d = json.load(open(path))
+                    replay[os.path.basename(path)] = {"signature": d.get("signature"), "what": d.get("what", "")[:300]}
+                except Exception:
+                    pass
+            results[chk] = {"exit": r.returncode, "violations": [v.replace(wt2, "<scratch>") for v in viol],
+                            "replays": replay, "wall_s": round(time.time() - t0, 1)}
     finally:
-        sh("git -C /repo checkout -- .")
-        sh("git -C /repo clean -fdq -- stepup tests")
+        sh(f"git -C /repo worktree remove --force {wt2}")
+        shutil.rmtree(wt2, ignore_errors=True)
     meta["checks_on_patched_repo"] = results
     meta["caught_by"] = [c for c, r in results.items() if r["exit"] == 1 and r["violations"]]
     meta["what_ran"] = ("demo without/with patch in a scratch worktree; harness/baseline_check.py on the patched worktree; "
-                        "./check <id> --tier quick with the patch applied to /repo (undone afterwards)")
+                        "./check <id> --tier quick against a scratch worktree of /repo with the patch applied (VERIF_REPO), with its own "
+                        "copy of the Lean project")
     notes = f"{src}/notes{n}.md"
     if os.path.exists(notes):
         meta["needs_to_manifest"] = open(notes).read()[:1500]
